@@ -73,11 +73,13 @@ def add(ro, msg):
                 err = 'crash:ReturnedOtherObject'
         except Exception as e:  # noqa: BLE001
             err = err_name(e)
-    return {'err': err, 'warns': lib_warnings(w), 'ro': treejson.to_tree(ro.xml)}
+    return {'err': err, 'warns': lib_warnings(w), 'ro': treejson.to_tree(ro.xml),
+            'completed_attr': bool(ro.completed)}
 
 
 def add_texts(ro_text, msg_text):
     """Parse both documents freshly, add, observe."""
     ro = load(ro_text)
     msg = load(msg_text)
+    ro.completed          # read the flag before the merge too (a cached flag must not go stale)
     return add(ro, msg)
